@@ -18,8 +18,10 @@
 (* allowed open obligation, and when everything is handled no obligation may be left and the    *)
 (* stores of live objects must equal the contract's live set.                                   *)
 (*                                                                                              *)
-(* KindChangeIsUpdate = TRUE is the pinned tree: applyConfig classifies a name whose kind        *)
-(* changed as *updated* (finding F18).  FALSE is the repaired diff (delete + create).            *)
+(* KindChangeIsUpdate = TRUE is the tree as originally pinned: applyConfig classified a name     *)
+(* whose kind changed as *updated* (finding F18: TLC rejects it, and so did the real code).      *)
+(* FALSE is the repaired diff (delete + create; "fix: object registry handles a change of kind   *)
+(* as delete + create instead of update").                                                       *)
 (* Recover = TRUE is the pinned tree: Init/Inherit/CloseWithRecovery recover a panicking         *)
 (* callback; FALSE models the loss of that recovery (the handler dies).                          *)
 EXTENDS Lifecycle, TLC
